@@ -526,6 +526,47 @@ func (g *G) creg(name string, nargs int, body string) {
 	g.reg(name, nargs, body)
 }
 
+// withNonNilPtrs returns a copy of v (a value of type t) in which every nil pointer is a pointer to the last pool value
+// of its target type; everything else (lengths, nil-ness of slices and maps, leaves) stays.
+func (g *G) withNonNilPtrs(t *ty.Ty, v *ty.Val) (*ty.Val, bool) {
+	u := g.env.Under(t)
+	c := *v
+	c.Elems = append([]*ty.Val(nil), v.Elems...)
+	changed := false
+	sub := func(i int, et *ty.Ty) {
+		if nv, ch := g.withNonNilPtrs(et, c.Elems[i]); ch {
+			c.Elems[i], changed = nv, true
+		}
+	}
+	switch u.K {
+	case ty.Ptr:
+		if v.K != ty.VPtr {
+			ep := g.vg.Pool(u.Elem)
+			return &ty.Val{K: ty.VPtr, Elems: []*ty.Val{ep[len(ep)-1]}}, true
+		}
+		sub(0, u.Elem)
+	case ty.Slice, ty.Array:
+		if v.K == ty.VSlice || v.K == ty.VArr {
+			for i := range c.Elems {
+				sub(i, u.Elem)
+			}
+		}
+	case ty.Struct:
+		if v.K == ty.VStruct {
+			for i, f := range u.Fields {
+				sub(i, f.T)
+			}
+		}
+	case ty.Map:
+		if v.K == ty.VMap {
+			for i := 1; i < len(c.Elems); i += 2 {
+				sub(i, u.Elem)
+			}
+		}
+	}
+	return &c, changed
+}
+
 // withDeepPtrs returns a copy of v (a value of type t) in which every pointer whose target type is again a pointer
 // (**T, *N with `type N *T`), other than the top-level value itself, is non-nil at both levels: a nil outer pointer
 // becomes a pointer to a pointer to the last pool value of the innermost type, a nil inner one likewise.
@@ -619,6 +660,15 @@ func (g *G) emitDeepCopy() {
 					g.cop("deepcopy", g.tn, nsrc.Wire(), d.Wire())
 					g.stats["c05:deepcopy-nan-leaf-source"]++
 				}
+			}
+		}
+		// a prior destination of the very shape of the source in which every pointer that is nil in the source is NON-nil
+		// (slices keep their lengths, so the destination's elements are reused): what the source has as nil must come
+		// out nil. (A top-level map must be empty beforehand: nothing to vary there.)
+		if a.K != ty.VNil && g.env.Under(g.t).K != ty.Map {
+			if pv, changed := g.withNonNilPtrs(g.t, a); changed {
+				g.cop("deepcopy", g.tn, g.vg.Inst(a).Wire(), g.vg.Inst(pv).Wire())
+				g.stats["c05:deepcopy-nil-over-nonnil-prior"]++
 			}
 		}
 		// a source in which every pointer to a pointer below the top level is non-nil at BOTH levels
